@@ -201,7 +201,7 @@ def plans(draw, nodes, links, origins, dests):
             ops.insert(pos + 1, [draw(st.sampled_from(["read", "trystep"]))])
     # second phase on the completed network: use it, replace an element by a throwaway object, use it, and put
     # the real element back through a drawn construction call
-    if draw(st.integers(0, 4)) == 0:
+    if draw(st.integers(0, 3)) == 0:
         ops.append([draw(st.sampled_from(["read", "trystep", "trystep"]))])
         ids = [l["id"] for l in links] + [o["id"] for o in origins] + [d["id"] for d in dests]
         for i in draw(st.lists(st.sampled_from(ids), min_size=1, max_size=2, unique=True)):
@@ -209,7 +209,7 @@ def plans(draw, nodes, links, origins, dests):
             if draw(st.booleans()):
                 ops.append([draw(st.sampled_from(["read", "trystep"]))])
             if i.startswith("L"):
-                ops.append(draw(st.sampled_from([["link", i], ["links", [i]], ["path", [i], False, False]])))
+                ops.append(draw(st.sampled_from([["link", i], ["links", [i]], ["links", [i]], ["path", [i], False, False]])))
             elif i.startswith("O"):
                 ops.append(["origin", i])
             else:
@@ -294,7 +294,7 @@ def specs(
         sp["extra_pars"] = {k: pool[k] for k in keys}
     if draw(st.integers(0, 5)) == 0:
         sp["array_params"] = True  # honoured by NumPy-only steps (spec.step_numpy)
-    if draw(st.integers(0, 7)) == 0:
+    if draw(st.integers(0, 4)) == 0:
         # a rare conjunction made less rare: one-segment link fed by an interior ramp, lane change right after it,
         # merging and lane-drop parameters both given
         ramps = [o for o in origins if S.in_links(sp, o["node"])]
@@ -358,8 +358,8 @@ def states(draw, spec, zero_bias=False, negative=False, finite_only=False, allow
             continue
         def ctl(lo, hi, specials=()):
             x = draw(fl(lo, hi, specials))
-            if negative and draw(st.integers(0, 5)) == 0:
-                x = -draw(fl(0, hi))  # inadmissible controls / disturbances too ("all inputs")
+            if negative and draw(st.integers(0, 2)) == 0:
+                x = -draw(fl(0, hi if math.isfinite(hi) else 1.0))  # inadmissible controls / disturbances too ("all inputs")
             return x
 
         s = dict(w=[val(0, 500)], d=[ctl(0, 8000)])
